@@ -186,13 +186,80 @@ def runOps : Option St → List String → List String
     | some none => "panic" :: runOps none ls
     | some (some (st', out)) => out :: runOps (some st') ls
 
+/-! ### several independent bitmaps (wave 6)
+
+The state of a case is FOUR independent objects (each an `St`: a bitmap with its Seq/Iter slots,
+all starting as `St.init`) and the index of the current one (0 at the start).
+  obj k        (k in 0..3) object k becomes current; answers `ok`.  Any other line starting with
+               `obj` (wrong arity, k > 3, not a number) answers `bad-op` and changes nothing.
+Every other line acts on the current object exactly as in the single-object driver (mutations
+empty the Iter slots of THAT object only).  A panic kills the object it happened in, not the
+others: further lines on a dead object answer `dead`; `obj k` keeps answering `ok`. -/
+
+/-- One parsed line on one object (`none` = the object is dead). -/
+def stepO (o : Option St) (t : List String) : Option St × String :=
+  match o with
+  | none => (none, "dead")
+  | some st =>
+    match stepSt st t with
+    | none => (some st, "bad-op")
+    | some none => (none, "panic")
+    | some (some (st', out)) => (some st', out)
+
+/-- A sequence of parsed lines on one object: final state and answers.  (`runOps` above is
+this on `toks` of the raw lines — `runOps_eq_runToks` in `Proof/C03Multi.lean`.) -/
+def runToks : Option St → List (List String) → Option St × List String
+  | o, [] => (o, [])
+  | o, t :: ts =>
+    let (o', out) := stepO o t
+    let (o'', outs) := runToks o' ts
+    (o'', out :: outs)
+
+structure MSt where
+  objs : Nat → Option St
+  cur : Nat
+
+def MSt.init : MSt := ⟨fun _ => some St.init, 0⟩
+
+/-- Store the new state of the current object. -/
+def MSt.put (m : MSt) (o : Option St) : MSt := { m with objs := fun j => if j = m.cur then o else m.objs j }
+
+/-- A line addressed to the driver, not to an object. -/
+def isObj : List String → Bool
+  | "obj" :: _ => true
+  | _ => false
+
+/-- The object index of a well-formed `obj k` line. -/
+def objArg? : List String → Option Nat
+  | [_, k] => slot? k
+  | _ => none
+
+/-- One parsed line on the multi-object state. -/
+def stepM (m : MSt) (t : List String) : MSt × String :=
+  if isObj t then
+    match objArg? t with
+    | some k => ({ m with cur := k }, "ok")
+    | none => (m, "bad-op")
+  else
+    let (o', out) := stepO (m.objs m.cur) t
+    (m.put o', out)
+
+def runToksM : MSt → List (List String) → MSt × List String
+  | m, [] => (m, [])
+  | m, t :: ts =>
+    let (m', out) := stepM m t
+    let (m'', outs) := runToksM m' ts
+    (m'', out :: outs)
+
+def runOpsM (m : MSt) (ls : List String) : List String := (runToksM m (ls.map toks)).2
+
 def runCase (hdr : List String) (ops : List String) : List String :=
   match hdr with
-  | ["rb"] => "ok" :: runOps (some St.init) ops
+  | ["rb"] => "ok" :: runOpsM MSt.init ops
   -- `heights=<kind>:<seed>`: the Go harness forces the tower heights of the skip list under the
   -- real RoaringBitmap; the model has no towers (ordered-map interface, C02), so it is ignored here
   | ["rb", h] =>
-    if h.startsWith "heights=" then "ok" :: runOps (some St.init) ops
+    if h.startsWith "heights=" then "ok" :: runOpsM MSt.init ops
     else "bad-op" :: ops.map fun _ => "bad-op"
   | _ => "bad-op" :: ops.map fun _ => "bad-op"
 
